@@ -1,5 +1,17 @@
 import Plenc.Spec.Format
 import Proofs.RoundTrip
+/-
+  Proofs.Spec — helper lemmas for C02 (wire format).
+
+  Part 1: the codec model writes what the specification `Plenc/Spec/Format.lean`
+  says (`EncLaw`, by mutual structural induction over `Ty` / `Fields`; the only
+  real content is that the length prefixes the model computes with `Ty.size` are
+  the lengths of what follows — `size_eq_app_len` through the framing laws of
+  Proofs/SizeApp.lean).
+  Part 2: the struct reader handles one record at a time, and the result depends
+  only on the sub-sequence of records of each field (`loop_chains`), hence not on
+  how records of different fields are interleaved.
+-/
 
 namespace SpecP
 open Spec
@@ -48,10 +60,6 @@ theorem renderRec_other (i : Nat) (h : i < 2 ^ 61) (wt : WT) (hw : wt ≠ .len) 
 theorem render_single (r : Rec) : render [r] = renderRec r := by
   simp [render]
 
-end SpecP
-
-namespace SpecP
-open Spec
 
 /-- the two halves of "the model writes what the specification says":
 untagged (payload) and under a field tag (records). -/
@@ -76,10 +84,6 @@ theorem encLaw_bool : EncLaw .bool :=
   encLaw_single _ rfl rfl (fun i v h => by cases v <;> simp [Ty.hasTy] at h <;> simp [recsOf])
     (fun _ v h => by cases v <;> simp [Ty.hasTy] at h <;> simp [Ty.app, payload, varint])
 
-end SpecP
-
-namespace SpecP
-open Spec
 
 theorem encLaw_int (w : Nat) : EncLaw (.int w) :=
   encLaw_single _ rfl rfl (fun i v h => by cases v <;> simp [Ty.hasTy] at h <;> simp [recsOf])
@@ -124,10 +128,6 @@ theorem encLaw_time (c : Bool) : EncLaw (.time c) :=
             appendVarInt, hn]
       | _ => simp [Ty.hasTy] at h)
 
-end SpecP
-
-namespace SpecP
-open Spec
 
 theorem render_append (a b : List Rec) : render (a ++ b) = render a ++ render b := by
   simp [render]
@@ -212,10 +212,6 @@ theorem encLaw_map (k v : Ty) (ihk : EncLaw k) (ihv : EncLaw v) : EncLaw (.map k
           rfl
       | _ => simp [Ty.hasTy] at h)
 
-end SpecP
-
-namespace SpecP
-open Spec
 
 theorem encLaw_ptr (t : Ty) (ih : EncLaw t) : EncLaw (.ptr t) := by
   intro hwf
@@ -331,10 +327,6 @@ theorem encLaw_pmap (k v : Ty) (ihk : EncLaw k) (ihv : EncLaw v) : EncLaw (.map 
         rfl
     | _ => simp [Ty.hasTy] at h
 
-end SpecP
-
-namespace SpecP
-open Spec
 
 def FieldsEncLaw (fs : Fields) : Prop :=
   fieldsWf fs → (∀ f ∈ fs, f.1 < 2 ^ 61) → ∀ vs, fieldsHaveTy fs vs → fieldsApp fs vs = render (fieldsOf fs vs)
@@ -415,5 +407,4 @@ theorem marshal_eq_encode (t : Ty) (v : Val) (hwf : t.wf) (hty : t.hasTy v) :
   · simp only [Bool.false_eq_true, ↓reduceIte]; exact app_nil_eq_payload t v hwf hty
   · rfl
 
-#print axioms marshal_eq_encode
 end SpecP
